@@ -474,6 +474,9 @@ static int dispatch(HttpAsyncCtx *clientCtx) {
 				handle->state = KSI_ASYNC_STATE_ERROR;
 				handle->err = KSI_NETWORK_ERROR;
 				handle->errExt = curlMsg->data.result;
+				/* The handle may already carry a message from an error PDU. */
+				KSI_Utf8String_free(handle->errMsg);
+				handle->errMsg = NULL;
 				if (len) KSI_Utf8String_new(clientCtx->ctx, curlResponse->errMsg, len + 1, &handle->errMsg);
 			} else {
 				long httpCode = 0;
@@ -491,6 +494,9 @@ static int dispatch(HttpAsyncCtx *clientCtx) {
 					handle->state = KSI_ASYNC_STATE_ERROR;
 					handle->err = KSI_HTTP_ERROR;
 					handle->errExt = httpCode;
+					/* The handle may already carry a message from an error PDU. */
+					KSI_Utf8String_free(handle->errMsg);
+					handle->errMsg = NULL;
 					if (len) KSI_Utf8String_new(clientCtx->ctx, curlResponse->errMsg, len + 1, &handle->errMsg);
 				} else {
 					/* Process responses for all active clients. */
